@@ -91,3 +91,14 @@ MUTANTS += [
  {"id": "window-end-helper-adds-three", "kind": "break", "edits": [{"patch": "/verif/benign/h4-summary-3/patch.diff"}, ("src/summary.rs", "        .map(|pos| pos + 2)", "        .map(|pos| pos + 3)")], "expect": ["PANIC@"]},
  {"id": "window-end-over-chunks", "kind": "break", "edits": [{"patch": "/verif/benign/h4-summary-3/patch.diff"}, ("src/summary.rs", "    buf.windows(2)\n        .rposition", "    buf.chunks(2)\n        .rposition")], "expect": ["PANIC@"]},
 ]
+MUTANTS += [
+ # fields drawn from .filter(|s| !s.is_empty()); the parenthesised name cut between two different end bytes
+ {"id": "filtered-fields-benign", "kind": "benign", "edits": [{"patch": "/verif/benign/h4-distinfo-2/patch.diff"}]},
+ {"id": "filtered-fields-filter-dropped", "kind": "break", "edits": [{"patch": "/verif/benign/h4-distinfo-2/patch.diff"}, ("src/distinfo.rs", "                .split(|c| c.is_ascii_whitespace())\n                .filter(|s| !s.is_empty());", "                .split(|c| c.is_ascii_whitespace());")], "expect": ["PANIC@distinfo::Line::from_bytes"]},
+ {"id": "filtered-fields-filter-inverted", "kind": "break", "edits": [{"patch": "/verif/benign/h4-distinfo-2/patch.diff"}, ("src/distinfo.rs", ".filter(|s| !s.is_empty());", ".filter(|s| s.is_empty());")], "expect": ["PANIC@distinfo::Line::from_bytes"]},
+ {"id": "filtered-fields-filter-other-test", "kind": "break", "edits": [{"patch": "/verif/benign/h4-distinfo-2/patch.diff"}, ("src/distinfo.rs", ".filter(|s| !s.is_empty());", ".filter(|s| s.len() != 1);")], "expect": ["PANIC@distinfo::Line::from_bytes"]},
+ {"id": "paren-ends-either-suffices", "kind": "break", "edits": [{"patch": "/verif/benign/h4-distinfo-2/patch.diff"}, ("src/distinfo.rs", "if s[0] != b'(' || s[s.len() - 1] != b')' {", "if s[0] != b'(' && s[s.len() - 1] != b')' {")], "expect": ["PANIC@distinfo::Line::from_bytes"]},
+ {"id": "paren-ends-same-byte", "kind": "break", "edits": [{"patch": "/verif/benign/h4-distinfo-2/patch.diff"}, ("src/distinfo.rs", "if s[0] != b'(' || s[s.len() - 1] != b')' {", "if s[0] != b'|' || s[s.len() - 1] != b'|' {")], "expect": ["PANIC@distinfo::Line::from_bytes"]},
+ {"id": "paren-cut-two-from-the-end", "kind": "break", "edits": [{"patch": "/verif/benign/h4-distinfo-2/patch.diff"}, ("src/distinfo.rs", "path.push(OsStr::from_bytes(&s[1..s.len() - 1]));", "path.push(OsStr::from_bytes(&s[1..s.len() - 2]));")], "expect": ["PANIC@distinfo::Line::from_bytes"]},
+ {"id": "paren-ends-same-byte-baseline", "kind": "break", "edits": [("src/distinfo.rs", "if s[0] == b'(' && s[s.len() - 1] == b')' {", "if s[0] == b'|' && s[s.len() - 1] == b'|' {")], "expect": ["PANIC@distinfo::Line::from_bytes"]},
+]
